@@ -46,10 +46,14 @@ class GreenThread:
     def _main(self):
         fn, args, kw = self._call
         t = self.task
+        if t.throw is not None:
+            # killed before it ever ran: eventlet replaces the function by one that raises, runs main() for the sake of the links and
+            # swallows the exception - nothing reaches the hub
+            self.exc, t.throw = t.throw, None
+            self.dead = True
+            self._resolve_links()
+            return
         try:
-            if t.throw is not None:
-                exc, t.throw = t.throw, None
-                raise exc
             self.result = fn(*args, **kw)
         except SimKilled:
             self.dead = True
@@ -209,7 +213,11 @@ class FakeEventlet:
 
     def sleep(self, seconds=0):
         s, t, p = facade.ctx()
-        s.block(lambda: False, max(0.0, seconds), True, False)
+        if seconds <= 0:
+            # sleep(0) = "let every green thread that is ready run until it blocks": the hub fires the timers scheduled before ours
+            s.block(lambda: all(x.state != "runnable" for x in p.tasks if x is not t and x.greenlet), None, True, False)
+        else:
+            s.block(lambda: False, seconds, True, False)
         s.tick()
 
     def spawn(self, fn, *args, **kw):
